@@ -274,6 +274,35 @@ def run(prop, tier, seed, replay):
                     if ci % 2 == 0:
                         C.remove(root / f"c{ci % 4}")       # (odd cases leave their catalog: the next user of the path overwrites it)
                     C.remove(root / f"o{ci}")
+        # ---- stratum: one LARGE patch (more records than any block / buffer size a helper may work in, and not a multiple of a
+        #      power of two) whose outermost records come last in the input — counts, weight sum and radius still describe it
+        nprng_b = np.random.default_rng(rng.randrange(2 ** 32))
+        # (records are regrouped within an input chunk, so the outskirts form an input chunk of their own, after the core)
+        for n_core, n_out, chunk_b in ((2 * 32818, 1500, 32818), (4 * 32800, 40, 32800)):
+            if tier == "quick" and n_core > 100000:
+                continue
+            ra_b = np.concatenate([0.5 + nprng_b.uniform(-0.01, 0.01, n_core), 0.5 + nprng_b.uniform(0.02, 0.03, n_out), [2.0, 2.001]])
+            dec_b = np.concatenate([0.1 + nprng_b.uniform(-0.01, 0.01, n_core), 0.1 + nprng_b.uniform(0.02, 0.03, n_out), [0.0, 0.001]])
+            ids_b = np.concatenate([np.zeros(n_core + n_out, dtype=int), [1, 1]])
+            w_b = nprng_b.integers(1, 4, len(ra_b)).astype(float)
+            with C.Workers(1):
+                cat_b = C.make_catalog(root / "big", ra_b, dec_b, w=w_b, patch=ids_b, chunksize=chunk_b)
+            ck.case(None, ("big-patch", n_core))
+            ck.count("stratum=large-patch")
+            for k_, pid_ in enumerate(cat_b.keys()):
+                data_ = cat_b[pid_].load_data()
+                cen_ = cat_b.get_centers().data[k_]
+                d_ = angsep(O.to_vec(data_["ra"], data_["dec"]), O.to_vec(cen_[0:1], cen_[1:2]))
+                rad_ = float(cat_b.get_radii().data[k_])
+                sel_ = ids_b == pid_
+                if (cat_b.get_num_records()[k_] != int(sel_.sum()) or cat_b.get_sum_weights()[k_] != float(w_b[sel_].sum())
+                        or d_.max() > rad_ * (1 + 1e-12) + 1e-15):
+                    ck.add_violation(f"patch {pid_} of {int(sel_.sum())} records: stored num_records {cat_b.get_num_records()[k_]}, sum_weights "
+                                     f"{cat_b.get_sum_weights()[k_]} (true {float(w_b[sel_].sum())}), radius {rad_!r} but a record lies "
+                                     f"{float(d_.max())!r} from the stored centre ({int((d_ > rad_ * (1 + 1e-12) + 1e-15).sum())} records outside)",
+                                     {"mode": "name", "records": int(sel_.sum()), "outermost_records_last": n_out, "chunksize": chunk_b})
+                    break
+            C.remove(root / "big")
         # ---- stratum: a reference patch of radius EXACTLY zero (single object, centre = the object) whose partner
         #      patch lies elsewhere: the alignment guard must refuse it (theorem guard_rejects_zero_radius)
         with C.Workers(1):
